@@ -39,6 +39,39 @@ def apiExport (reportsPartial : Bool) : Full → ExportOut
 def apiExportReq (maxDocs size : Nat) (reportsPartial : Bool) (f : Full) : ExportOut :=
   if maxDocs > 0 ∧ size > maxDocs then .status true else apiExport reportsPartial f
 
+/-- The cancellation the lazily read document stream of `Export` is subject to.  `doSearch` only *opens* the stores'
+    fetch streams; `Export` reads them in its send loop, under the context `doSearch` was given.  When that is the export
+    context (`usesExportCtx`, extracted: `exportSearchCtx`) nothing cancels it within `ExportTimeout`; under a shorter-lived
+    child (bounded by `SearchTimeout`) the stream is cut after the `k` documents read by then - `mergedStreamIterator.Next`
+    answers a done context with `io.EOF`, which the send loop takes for the regular end. -/
+def exportCancel (usesExportCtx : Bool) (searchTimeoutAfter : Option Nat) : Option Nat :=
+  if usesExportCtx then none else searchTimeoutAfter
+
+/-- `Export` within its `ExportTimeout`, `searchTimeoutAfter = some k`: the `SearchTimeout` elapses after `k` documents -/
+def apiExportCtx (usesExportCtx reportsPartial : Bool) (hot cold : List (Nat × ShardRes)) (offset size hint : Nat)
+    (order : List Nat) (behav : Nat → Option (List Ev)) (searchTimeoutAfter : Option Nat) : ExportOut :=
+  apiExport reportsPartial
+    (searchAndFetchC hot cold offset size false hint true order behav (exportCancel usesExportCtx searchTimeoutAfter))
+
+/-! ### the request a store receives -/
+
+/-- `storeapi.SearchRequest`, the two fields that decide how many IDs a store returns: its newest `size + offset` -/
+structure StoreReq where
+  size : Nat
+  offset : Nat
+deriving DecidableEq, Repr
+
+def StoreReq.limit (r : StoreReq) : Nat := r.size + r.offset
+
+/-- `SearchRequest.GetAPISearchRequest`: `Size` and `Offset` are copied unchanged (extracted: `storeRequestFields`) -/
+def storeRequest (offset size : Nat) : StoreReq := ⟨size, offset⟩
+
+/-- a variant that never asks one store for more than `cap` documents - NOT the code; see `c16_clamp_witness` -/
+def storeRequestClamped (cap offset size : Nat) : StoreReq := ⟨if cap > 0 ∧ size > cap then cap else size, offset⟩
+
+/-- a store holding `held` (ordered, newest first for `rev = false`) answers a request with its first `limit` IDs -/
+def storeAnswer (held : List ProxySearch.ID) (r : StoreReq) : Call := .resp .none (held.take r.limit) held.length 0
+
 /-! ### Fetch (Ingestor.Documents) -/
 
 /-- `expandIDsBySources`: every ID with every source (the code iterates a map per ID; `srcs` is that order) -/
